@@ -460,6 +460,19 @@ class _Norm(ast.NodeTransformer):
                         for t, v in zip(st.targets[0].elts, st.value.elts):
                             split.append(ast.copy_location(ast.Assign(targets=[t], value=v), st))
                         continue
+                # N28: `a, *rest = X.split(..)` is `t = X.split(..); a = t[0]; rest = t[1:]` (split returns a list: a slice of it is the same list the
+                # star collects)
+                if isinstance(st, ast.Assign) and len(st.targets) == 1 and isinstance(st.targets[0], (ast.Tuple, ast.List)) and len(st.targets[0].elts) == 2 \
+                        and isinstance(st.targets[0].elts[0], ast.Name) and isinstance(st.targets[0].elts[1], ast.Starred) \
+                        and isinstance(st.targets[0].elts[1].value, ast.Name) and isinstance(st.value, ast.Call) \
+                        and isinstance(st.value.func, ast.Attribute) and st.value.func.attr == "split":
+                    a_, r_ = st.targets[0].elts[0], st.targets[0].elts[1].value
+                    tmp = f"_parts_{a_.id}"
+                    ld = lambda: ast.Name(id=tmp, ctx=ast.Load())
+                    split.append(ast.copy_location(ast.Assign(targets=[ast.Name(id=tmp, ctx=ast.Store())], value=st.value), st))
+                    split.append(ast.copy_location(ast.Assign(targets=[a_], value=ast.Subscript(value=ld(), slice=ast.Constant(value=0), ctx=ast.Load())), st))
+                    split.append(ast.copy_location(ast.Assign(targets=[r_], value=ast.Subscript(value=ld(), slice=ast.Slice(lower=ast.Constant(value=1), upper=None, step=None), ctx=ast.Load())), st))
+                    continue
                 split.append(st)
             body = split
             expanded = []
@@ -942,6 +955,8 @@ class _Norm(ast.NodeTransformer):
 
 
 def normalise(tree: ast.Module) -> ast.Module:
+    from .constfold import fold_module_constants
+    fold_module_constants(tree)                  # N26 (before N23: a folded table can be a dispatch table)
     from .dispatch import expand_table_dispatch
     expand_table_dispatch(tree)                  # N23
     prev = None
